@@ -108,7 +108,7 @@ def judge(ch, net, obj, rec, stack, dn, seq, check_values=True, base=None):
                 if outcomes or op.name in ("delete_many", "get_many", "gets_many"):
                     try:
                         exp = _ops.expected(op, outcomes, dn, obj)
-                    except (KeyError, IndexError, TypeError):
+                    except Exception:  # outcomes no healthy exchange produces (a mutant's stale or foreign replies)
                         exp = None
                         out.append(("wrong-value", i, f"call {i} ({op.label}) returned {short(r['value'])} "
                                     f"although the server's outcomes were {short(outcomes)}"))
